@@ -243,7 +243,7 @@ def run_dir(pid):
     return d
 
 
-SAN_RE = re.compile(r"(ERROR: AddressSanitizer: attempting [\w-]+|ERROR: AddressSanitizer: [\w-]+|ERROR: LeakSanitizer: [\w ]+|runtime error: [^\n]+|"
+SAN_RE = re.compile(r"(ERROR: HarnessAllocator: [\w-]+|ERROR: AddressSanitizer: attempting [\w-]+|ERROR: AddressSanitizer: [\w-]+|ERROR: LeakSanitizer: [\w ]+|runtime error: [^\n]+|"
                     r"WARNING: ThreadSanitizer: [\w ]+|AddressSanitizer: [\w-]+ on|DEADLYSIGNAL)")
 
 
